@@ -79,6 +79,13 @@ def mutate(rng, ty, b, u, a, binomial):
         k = rng.below(n)
         a[k] = num.rnd(ty, a[k] + m)
         return b, u, a
+    if r == 8 and n >= 2 and rng.chance(1, 2):
+        # base-rate range violation with the sum (and possibly every prefix sum) kept in range
+        i, j = rng.below(n), rng.below(n)
+        if i != j:
+            a[i] = num.rnd(ty, a[i] + abs(m) + a[j])
+            a[j] = num.rnd(ty, -abs(m))
+        return b, u, a
     if r == 8:
         # range violation with the sum kept: move mass from one component to another
         if n >= 2:
